@@ -54,7 +54,16 @@ func walKey(tag uint32, n int) []byte {
 func genWalLen(r *kit.Rand, overhead int) (klen, vlen int) {
 	// entry size = overhead + klen + vlen; aim at interesting totals
 	klen = kit.PickOf(r, 0, 1, 3, 8, 40, 300)
-	switch r.Pick(30, 6, 10, 4, 3, 2) {
+	switch r.Pick(30, 6, 10, 4, 3, 2, 5) {
+	case 6: // what follows the first fragment fills whole records exactly (or misses by one)
+		if r.Bool(0.3) {
+			klen = kit.PickOf(r, 33000, 40000)
+		}
+		over := klen - 32755
+		if over < 0 {
+			over = 0
+		}
+		vlen = r.Range(1, 3)*32768 - 4 - over + r.Range(-1, 1)
 	case 0:
 		vlen = r.Range(0, 60)
 	case 1:
